@@ -30,7 +30,7 @@ class RdflibTripleYielder(BaseTriplesYielder):
         if parse_namespaces:
             self._integrate_namespaces_from_parsed_graph(tmp_graph, self._namespaces_dict)
             self._prefixes_parsed = True
-        for sub, pred, obj in tmp_graph:
+        for sub, pred, obj in sorted(tmp_graph):  # rdflib iterates in hash order, which changes from run to run
             yield (
                 self._turn_rdflib_token_into_model_obj(sub),
                 self._turn_rdflib_prop_into_model_obj(pred),
